@@ -359,7 +359,9 @@ def solve_obligation(ob, rng, pre=None):
     hyps, goal = build_query(ob)
     gs = z3.simplify(goal)
     if z3.is_true(gs):
-        return Result(ob, "unsat", 0.0, {"tactic": "syntactic"}, trivial=True)
+        # closed by z3's simplifier (polynomial normalisation, ite/bool rewriting); it only counts as
+        # trivial when every atom of the goal was already a syntactic identity `t == t`
+        return Result(ob, "unsat", 0.0, {"tactic": "z3-simplifier"}, trivial=syntactic_identity(goal), detail="simplifier")
     if pre is not None and pre[0] == "unsat":
         res = Result(ob, "unsat", pre[1], pre[3])
         res.twin = pre[2]
@@ -373,6 +375,24 @@ def solve_obligation(ob, rng, pre=None):
     if verdict == "sat":
         res.replay = replay_model(ob, model, rng, hyps, goal)
     return res
+
+
+def syntactic_identity(goal):
+    """True iff the goal is a boolean combination of atoms that are literally `t == t` / true"""
+    stack = [goal]
+    while stack:
+        g = stack.pop()
+        if z3.is_true(g):
+            continue
+        if z3.is_app(g) and g.decl().kind() in (z3.Z3_OP_AND, z3.Z3_OP_OR):
+            stack.extend(g.children())
+        elif z3.is_app(g) and g.decl().kind() == z3.Z3_OP_IMPLIES:
+            stack.append(g.arg(1))
+        elif z3.is_app(g) and g.decl().kind() == z3.Z3_OP_EQ and g.arg(0).eq(g.arg(1)):
+            continue
+        else:
+            return False
+    return True
 
 
 def solve_parallel(obligations, workers=None):
@@ -644,12 +664,13 @@ class Check:
             evaluations=len(solved) + sum(1 for r in solved if r.twin is not None),
             distinct_nontrivial=len({r.ob.name for r in nontrivial}),
             rule=("one evaluation = one solver query (obligation or vacuity twin) over the encoding regenerated from the current source; "
-                  "an obligation counts as non-trivial when its negation did not simplify to false syntactically, i.e. the solver had to decide it; "
+                  "an obligation counts as non-trivial unless every atom of its goal is literally `t == t` (no arithmetic or boolean reasoning needed); "
                   "distinct = distinct obligation names"),
             samples=samples,
             obligations=len(solved),
             discharged=sum(1 for r in solved if r.verdict == "unsat"),
-            syntactically_closed=sum(1 for r in solved if r.trivial),
+            syntactic_identities=sum(1 for r in solved if r.trivial),
+            closed_by_simplifier=sum(1 for r in solved if r.detail == "simplifier"),
             twins_sat=sum(1 for r in solved if r.twin == "sat"),
             solver_time_s=round(sum(r.seconds for r in solved), 3),
             slowest=[dict(obligation=r.ob.name, s=round(r.seconds, 2)) for r in sorted(solved, key=lambda r: -r.seconds)[:3]],
@@ -673,7 +694,7 @@ class Check:
         with open(os.path.join(evdir, f"{self.pid}.json"), "w") as f:
             json.dump(ev, f, indent=1)
         print(f"[{self.pid}] tier={self.tier} obligations={cov['obligations']} discharged={cov['discharged']} "
-              f"(syntactic {cov['syntactically_closed']}) violations={len(new_viol)} known={len(known_hits)} "
+              f"(by simplifier {cov['closed_by_simplifier']}, identities {cov['syntactic_identities']}) violations={len(new_viol)} known={len(known_hits)} "
               f"inconclusive={len(self.inconclusive)} skipped={len(self.skipped)} solver={cov['solver_time_s']}s wall={wall:.1f}s")
         if new_viol:
             return 1
